@@ -149,6 +149,8 @@ def check(case: Dict[str, Any]) -> Outcome:
         return check_fuzz_case(case)
     if case.get("loop"):
         return check_loopback(case)
+    if "burst" in case:
+        return check_burst(case)
     out = Outcome()
     steps: List[Dict[str, Any]] = list(case["steps"])
     probe = {"msg": {"kind": "request", "id": "probe-id"}, "beh": {"status": 200, "ctype": "json", "body": {"kind": "result"}}}
@@ -471,6 +473,72 @@ def job_hyp(col: Collector, seed: int, tier: str, shard: int, n: int) -> None:
     hyp_run(col, seed * 1000 + shard, cases(), check, n)
 
 
+def check_burst(case: Dict[str, Any]) -> Outcome:
+    """several requests written back to back (nobody waits for an answer before sending the next one), the server
+    taking a generated time over each: however the transport schedules its POSTs, every request must end up with
+    exactly one terminal message, and with the server's own answer when there was one."""
+    from chuk_mcp.protocol.messages.json_rpc_message import parse_message
+    from chuk_mcp.transports.http.http_client import http_client
+    from chuk_mcp.transports.http.parameters import StreamableHTTPParameters
+
+    out = Outcome()
+    steps: List[Dict[str, Any]] = case["burst"]
+    got: List[Any] = []
+    built: Dict[int, Tuple[bytes, List[Any], bool]] = {}
+    wires = []
+    for i, st_ in enumerate(steps):
+        w_ = {"jsonrpc": "2.0", "id": f"b{i}", "method": "tools/list", "params": {"step": i}}
+        wires.append(w_)
+        built[i] = build_body(st_["beh"].get("body", {"kind": "result"}), w_, st_["beh"].get("ctype", "json").startswith("sse"))
+
+    async def handler(request: httpx.Request) -> httpx.Response:
+        try:
+            i = json.loads(request.content)["params"]["step"]
+        except Exception:
+            return httpx.Response(400)
+        beh = steps[i]["beh"]
+        if beh.get("delay"):
+            await asyncio.sleep(beh["delay"] / 100.0)
+        if beh.get("exc"):
+            raise EXC[beh["exc"]](request)
+        ct = CTYPES[beh.get("ctype", "json")]
+        return httpx.Response(beh["status"], headers={"content-type": ct} if ct else {}, content=built[i][0])
+
+    async def main():
+        with install("http", handler):
+            async with http_client(StreamableHTTPParameters(url=URL, timeout=5.0)) as (r, w):
+                for w_ in wires:
+                    await w.send(parse_message(w_))
+                await asyncio.sleep(sum(s_["beh"].get("delay", 0) for s_ in steps) / 100.0 + 1.0)
+                while True:
+                    try:
+                        m = r.receive_nowait()
+                    except (anyio.WouldBlock, anyio.EndOfStream, anyio.ClosedResourceError):
+                        break
+                    got.append(m.model_dump(exclude_none=True) if hasattr(m, "model_dump") else m)
+
+    try:
+        run_virtual(main)
+    except Exception as e:  # noqa
+        out.fail("http-client-raised", f"{type(e).__name__}: {e}")
+        return out
+    out.nontrivial = len(steps) > 1
+    out.classes = ("burst", f"steps:{len(steps)}", "delays-reversed" if [s_["beh"].get("delay", 0) for s_ in steps] != sorted(s_["beh"].get("delay", 0) for s_ in steps) else "delays-in-order")
+    for i, st_ in enumerate(steps):
+        mine = [g for g in got if isinstance(g, dict) and "method" not in g and g.get("id") == f"b{i}"]
+        beh = st_["beh"]
+        label = beh.get("exc") or f"{beh['status']}:{beh.get('ctype', 'json')}:{beh.get('body', {}).get('kind', 'result')}"
+        if len(mine) != 1 or classify(mine[0])[0] not in ("result", "error"):
+            sig = "burst:no-terminal-message-for-request" if not mine else ("burst:more-than-one-terminal-message" if len(mine) > 1 else "burst:terminal-message-invalid")
+            out.fail(sig, f"request b{i} ({label}, server took {beh.get('delay', 0) / 100.0}s) among {len(steps)} written back to back: {json.dumps(mine)[:200]}; all delivered ids {[g.get('id') for g in got if isinstance(g, dict)]}")
+            return out
+        answers = [m for m in built[i][1] if isinstance(m, dict) and m.get("id") == f"b{i}"]
+        if answers and beh["status"] == 200 and not beh.get("exc") and beh.get("ctype", "json") in ("json", "sse") and not strict_eq(mine[0], answers[0]):
+            out.fail("burst:server-answer-replaced", f"request b{i}: got {json.dumps(mine[0])[:200]} want {json.dumps(answers[0])[:200]}")
+            return out
+    return out
+
+
 def check_loopback(case: Dict[str, Any]) -> Outcome:
     """One request per case against a real loopback HTTP server; the body is sent with chunked transfer
     encoding in the generated TCP segments (incl. cuts inside UTF-8 characters and CRLF)."""
@@ -578,14 +646,40 @@ def job_atheris(col: Collector, seed: int, tier: str, seconds: int, corpus: str)
     run_fuzz_job(col, "sse_text", seconds, seed, corpus)
 
 
-JOBS = {"atheris": job_atheris, "matrix": job_matrix, "hyp": job_hyp, "loopback": job_loopback}
+BURST_BEHS: List[Dict[str, Any]] = [
+    {"status": 200, "ctype": "json", "body": {"kind": "result"}},
+    {"status": 200, "ctype": "sse", "body": {"kind": "result"}},
+    {"status": 200, "ctype": "sse", "body": {"kind": "empty"}},
+    {"status": 200, "ctype": "json", "body": {"kind": "empty"}},
+    {"status": 200, "ctype": "sse", "body": {"kind": "notifs+response", "n": 2}},
+    {"status": 500, "ctype": "text", "body": {"kind": "nonjson"}},
+    {"status": 202, "ctype": "json", "body": {"kind": "empty"}},
+    {"status": 200, "exc": "read_timeout"},
+]
+
+
+def job_burst(col: Collector, seed: int, tier: str) -> None:
+    """all ordered pairs of 8 server behaviours x delays {(0.3, 0), (0, 0.3), (0.1, 0.1)} written back to back, plus triples in thorough"""
+    behs = BURST_BEHS
+    for a, b in itertools.product(range(len(behs)), repeat=2):
+        for da, db in ((30, 0), (0, 30), (10, 10)):
+            case = {"burst": [{"beh": dict(behs[a], delay=da)}, {"beh": dict(behs[b], delay=db)}]}
+            col.record(case, check(case))
+    if tier != "quick":
+        for a, b, c in itertools.product(range(len(behs)), repeat=3):
+            case = {"burst": [{"beh": dict(behs[a], delay=40)}, {"beh": dict(behs[b], delay=0)}, {"beh": dict(behs[c], delay=20)}]}
+            col.record(case, check(case))
+    col.exhaustive_parts.append("requests written back to back: all ordered pairs (thorough: triples) of 8 server behaviours with the earlier request answered later / earlier / together")
+
+
+JOBS = {"burst": job_burst, "atheris": job_atheris, "matrix": job_matrix, "hyp": job_hyp, "loopback": job_loopback}
 
 
 def jobs(tier: str):
     if tier == "quick":
-        return [("matrix", {"shard": s, "nshards": 10}) for s in range(10)] + [("hyp", {"shard": s, "n": 130}) for s in range(6)]
+        return [("matrix", {"shard": s, "nshards": 10}) for s in range(10)] + [("hyp", {"shard": s, "n": 130}) for s in range(6)] + [("burst", {})]
     return (
-        [("matrix", {"shard": s, "nshards": 8}) for s in range(8)] + [("hyp", {"shard": s, "n": 2500}) for s in range(4)] + [("loopback", {"shard": s, "n": 60}) for s in range(4)]
+        [("matrix", {"shard": s, "nshards": 8}) for s in range(8)] + [("hyp", {"shard": s, "n": 2500}) for s in range(4)] + [("loopback", {"shard": s, "n": 60}) for s in range(4)] + [("burst", {})]
         + [("atheris", {"seconds": 150, "corpus": "seeded"}), ("atheris", {"seconds": 150, "corpus": "empty"})]
     )
 
